@@ -24,6 +24,7 @@ import logging
 import os
 import random
 import warnings
+import zlib
 from collections import Counter
 
 import onnx
@@ -69,6 +70,36 @@ def _single_input(function) -> bool:
     return len(function.inputs) == 1
 
 
+# partial inlining: criteria that split a call chain main -> F -> G -> H at different levels (a kept function
+# then receives the inlined body of a function it calls)
+def _is_leaf(function) -> bool:
+    """The function calls no model-local function (anywhere in its body, nested subgraphs included)."""
+    return all(_norm(n.domain) in _STANDARD_DOMAINS for n in function.all_nodes())
+
+
+def _name_parity(function) -> int:
+    return zlib.crc32(function.name.encode()) & 1
+
+
+def _as_first_seen(predicate):
+    """The predicate's verdict on a function as it was when the pass first asked about it, whatever the pass has
+    done to the function's body since (one memo per pass instance)."""
+    memo: dict = {}
+
+    def criteria(function) -> bool:
+        key = function.identifier()
+        if key not in memo:
+            memo[key] = bool(predicate(function))
+        return memo[key]
+    return criteria
+
+
+# InlinePass variants whose criteria looks at the function BODY, which the pass itself rewrites: the verdict on a
+# function may change while the pass runs.  Each has a twin that freezes the first verdict; report() re-runs a
+# witness with the twin to tell "the criteria changed its mind during the pass" from any other mechanism.
+STABLE_TWIN = {"criteria=leaf": "criteria=leaf,as_first_seen"}
+
+
 PASS_VARIANTS: dict[str, dict[str, object]] = {
     "AddDefaultAttributesPass": {"": lambda: common_passes.AddDefaultAttributesPass()},
     "AddInitializersToInputsPass": {"": lambda: common_passes.AddInitializersToInputsPass()},
@@ -98,6 +129,11 @@ PASS_VARIANTS: dict[str, dict[str, object]] = {
         "criteria=small": lambda: common_passes.InlinePass(criteria=lambda f: len(f) <= 2),
         "criteria=single_input": lambda: common_passes.InlinePass(criteria=_single_input),
         "criteria=never": lambda: common_passes.InlinePass(criteria=lambda f: False),
+        "criteria=leaf": lambda: common_passes.InlinePass(criteria=_is_leaf),
+        "criteria=leaf,as_first_seen": lambda: common_passes.InlinePass(criteria=_as_first_seen(_is_leaf)),
+        "criteria=nonleaf": lambda: common_passes.InlinePass(criteria=lambda f: not _is_leaf(f)),
+        "criteria=name_parity_0": lambda: common_passes.InlinePass(criteria=lambda f: _name_parity(f) == 0),
+        "criteria=name_parity_1": lambda: common_passes.InlinePass(criteria=lambda f: _name_parity(f) == 1),
     },
     "LiftConstantsToInitializersPass": {
         "": lambda: common_passes.LiftConstantsToInitializersPass(),
@@ -230,6 +266,29 @@ def dangling_calls(proto, once_defined=None) -> set[tuple[str, str, str]]:
     return dangling
 
 
+def shadowed_names(proto) -> set[str]:
+    """Names that a nested graph declares or defines (input, initializer, node output) although an enclosing graph
+    of the same model graph / function body uses the name too.  The generator never produces such models; a pass
+    may (the checker tolerates a subgraph *input* or *initializer* that hides an outer name)."""
+    found: set[str] = set()
+
+    def names_of(graph_nodes, inputs, initializers) -> set[str]:
+        return {i.name for i in inputs} | {t.name for t in initializers} | {o for n in graph_nodes for o in n.output if o}
+
+    def walk(nodes, outer: set[str]) -> None:
+        for n in nodes:
+            for a in n.attribute:
+                for g in ([a.g] if a.type == onnx.AttributeProto.GRAPH else list(a.graphs)):
+                    own = names_of(g.node, g.input, g.initializer)
+                    found.update(own & outer)
+                    walk(g.node, outer | own)
+    g = proto.graph
+    walk(g.node, names_of(g.node, g.input, g.initializer))
+    for f in proto.functions:
+        walk(f.node, set(f.input) | {o for n in f.node for o in n.output if o})
+    return found
+
+
 def overrides_allowed(specs) -> bool:
     """RemoveInitializersFromInputsPass legitimately turns an optional input into a constant; what
     later passes do with that constant (merge it, expose it again under the old name) is then
@@ -292,8 +351,15 @@ def evaluate(case: GE.Case, model: ir.Model, ctx=None, want: str | None = None, 
     # outputs: only evaluators that executed M *and* P(M) on the same input set have a say
     differ: dict[str, dict[int, str]] = {}
     equal: dict[str, set[int]] = {}
+    # probe: the reference evaluator resolves a name that a nested body declares AND an enclosing graph defines to the
+    # enclosing graph's value (onnxruntime: innermost wins, as scoping demands) - it is not asked about such a P(M)
+    gated = {"ref"} if shadowed_names(proto) else set()
+    for e in gated:
+        if case.ran(e):
+            count("evaluator_lost:" + e)
+            count("evaluator_lost_reason:ref:gate:shadowed-name")
     for e in GE.EVALUATORS:
-        idx = case.ran(e)
+        idx = case.ran(e) if e not in gated else []
         if not idx:
             continue
         results = GE.RUNNERS[e](proto, [case.inputs[j] for j in idx])
@@ -315,7 +381,7 @@ def evaluate(case: GE.Case, model: ir.Model, ctx=None, want: str | None = None, 
               if overrides and GE.override_applicable(case.proto, proto, m)]
     count("override_sets_not_applicable", len(case.override_sets) - len(usable))
     for e in GE.EVALUATORS:
-        idx = [j for j in case.ran_override(e) if j in usable]
+        idx = [j for j in case.ran_override(e) if j in usable and e not in gated]
         if not idx:
             continue
         results = GE.RUNNERS[e](proto, [case.inputs[case.override_sets[j][0]] for j in idx],
@@ -424,6 +490,39 @@ def attribute(case: GE.Case, source: str, minimal, clause: str, first=(), deep: 
     return "multi", feats
 
 
+def _bn_counts(model):
+    """(BatchNormalization nodes, those with training_mode=1) over the graph tree and the functions."""
+    total = training = 0
+    graphs = [model.graph] + list(model.functions.values())
+    for g in graphs:
+        for n in g.all_nodes():
+            if n.op_type == "BatchNormalization" and n.domain in ("", "ai.onnx"):
+                total += 1
+                a = n.attributes.get("training_mode")
+                if a is not None and a.value == 1:
+                    training += 1
+    return total, training
+
+
+def _bn_inference_rewrite_observed(case: GE.Case, source: str, minimal, feats) -> bool:
+    """Mechanism marker of the known BatchNormalization finding, observed on the regenerated minimal
+    model: the culprit sequence turns a training-mode BatchNormalization into an inference-mode one
+    (training_mode=1 nodes decrease although the BatchNormalization node itself stays)."""
+    try:
+        model, info = GE.model_from_seed(case.info["seed"], case.info["size"], feats)
+        small, _ = GE.admit(model, info, random.Random(f"{case.info['seed']}:inputs"))
+        if small is None:
+            return False
+        t0, tr0 = _bn_counts(fresh_copy(small, source))
+        after, applied, _, _ = apply_flat(small, source, minimal)
+        if after is None or len(applied) != len(minimal):
+            return False
+        t1, tr1 = _bn_counts(after)
+    except Exception:  # noqa: BLE001 - the marker is only ever used to name a mechanism more precisely
+        return False
+    return tr1 < tr0 and (tr0 - tr1) > (t0 - t1)
+
+
 def report(ctx, case: GE.Case, source: str, specs, clause: str, message: str) -> None:
     """Shrink the sequence, find the pass that first breaks the clause and name the mechanism:
     ``clause|pass|planted feature that alone suffices``.  For serialisation/checker clauses (the
@@ -434,10 +533,18 @@ def report(ctx, case: GE.Case, source: str, specs, clause: str, message: str) ->
     seen = memo.setdefault((clause, culprit[0]), [])
     needs_detail = clause.startswith(("outputs-differ", "io-changed"))
     detail, feats = attribute(case, source, minimal, clause, first=seen, deep=needs_detail)
+    if detail == "multi" and needs_detail:
+        # no single planted feature suffices: name the 1-minimal feature set; when that set needs the
+        # training-mode BatchNormalization and the inference-mode rewrite is observed on it, the other
+        # features only make the difference visible at an output - the mechanism is 'bn_training'
+        if "bn_training" in feats and _bn_inference_rewrite_observed(case, source, minimal, feats):
+            detail = "bn_training"
+        else:
+            detail = "multi:" + "+".join(sorted(feats))
     if detail not in seen:
         seen.append(detail)
     # checker clauses: the feature is named only when one pass on one planted feature reproduces it
-    single = detail in GE.FEATURES and len(minimal) == 1
+    single = detail in GE.ALL_FEATURES and len(minimal) == 1
     signature = f"{clause}|{culprit[0]}" + (f"|{detail}" if needs_detail or single else "")
     replay = {
         "seed": case.info["seed"], "size": case.info["size"], "features": feats, "source": source,
@@ -538,7 +645,7 @@ def run(ctx) -> None:
     n_seq = int(ctx.params.get("sequences", 3))
     for case_id in ctx.case_ids():
         rng = ctx.rng(case_id)
-        case = GE.gen_checked(rng, size=rng.choice([3, 6, 10, 14]), rejected=rejected)
+        case = GE.gen_checked(rng, size=rng.choice([3, 6, 10, 14]), rejected=rejected, extra=True)
         if case is None:
             ctx.count("generator_gave_up")
             continue
